@@ -1214,6 +1214,11 @@ def check_C16(tier, seed):
                               "shader.wgsl", "a.wgsl", "shaders/main.wgsl", "templates/${variant}/shader.wgsl", "${OUT_DIR}/shader.wgsl", "${HOME}", "$HOME/x.wgsl", "{}/x.wgsl", "{0}.wgsl", "%s.wgsl", "..", "shaders//shader.wgsl", "a/./b.wgsl", "dir/", "dir/.", "/abs//x.wgsl", "a\\b\\c.wgsl", "..\\up.wgsl", "a/b/../../c.wgsl"]):
         cases.append({"id": "src-path-%d" % i, "family": "source-include-paths", "S": F.source_shader("p"), "opts": F.opts(include=pth)})
         cases.append({"id": "src-path-%d-emb" % i, "family": "source-include-paths", "S": F.source_shader("p"), "opts": F.opts()})
+    # absolute include paths: below the working directory of the generating process, equal to it, a sibling of it, with redundant separators
+    here = os.path.abspath(planted_cwd())
+    for i, pth in enumerate([here + "/shaders/main.wgsl", here + "/a.wgsl", here, here + "/", here + "//shaders///main.wgsl", here + "/./a.wgsl", os.path.dirname(here) + "/a.wgsl",
+                              here + "/shaders/../a.wgsl", "/a.wgsl", "/", here.upper() + "/a.wgsl", here + "x/a.wgsl"]):
+        cases.append({"id": "src-abspath-%d" % i, "family": "source-include-absolute-paths", "S": F.source_shader("p"), "opts": F.opts(include=pth, rustfmt=(i % 3 == 2))})
     for i, pre in enumerate(["\ufeff", "\ufeff\ufeff", "\u200b", "\u2060", "\ufffe", "\x00", "\ufeff\n"]):
         cases.append({"id": "src-bom-%d" % i, "family": "source-invisible-prefix", "wgsl": pre + "@fragment fn fs_main() {}\n", "opts": F.opts()})
     for i, tail in enumerate(["// trailing comment", "// caf\u00e9", "//", "/* block */ // x", "// a\n// b"]):
